@@ -25,8 +25,10 @@ def gen_ops(rng, n=None):
             ops.append(["reverse"])
         elif r < 0.94:
             ops.append(["reload"])     # write_simple_json + read_simple_json into the same project object
-        elif r < 0.97:
+        elif r < 0.96:
             ops.append(["sim_keepstate"])   # simulate(initialize_state_info=False, initialize_log_info=True)
+        elif r < 0.985:
+            ops.append(["queries"])         # Gantt data and state queries of every object: read-only
         else:
             ops.append(["init"])
     return ops
